@@ -46,6 +46,9 @@ def rand_text_spec(rng, profile, max_len=None):
         s = S.sparse_odd_string(rng, 65, 160)
         if rng.random() < 0.5:
             s = s.replace(" ", "_")     # one unbreakable word
+    if profile.get("long_lines", True) and not profile.get("weights") and rng.random() < 0.012:
+        # a full-width spacer line (all white space, some of it two cells wide), alone or between two words
+        s = S.blank_line(rng) if rng.random() < 0.5 else "ab\n" + S.blank_line(rng) + "\ncd"
     if s and profile.get("odd_separators", True) and rng.random() < 0.03:
         # whitespace that occupies no cell and that str.splitlines (but not rich) treats as a line break
         pos = rng.randint(0, len(s))
